@@ -87,6 +87,18 @@ def quiet_env(rng, fam):
     return None
 
 
+def gen_read(rng, name, cls):
+    info = SEL[cls]
+    meths = [("get_support", {}), ("get_support", {"indices": True}), ("get_support", {"indices": True, "ordered": True})]
+    if info["fam"] in ("fps", "pcovfps", "voronoi"):
+        meths += [("get_distance", {}), ("get_select_distance", {})]
+    if info["axis"] == 1:
+        meths.append(("transform", {}))
+    meths.append(("score", {}))
+    m, kw = rng.choice(meths)
+    return {"op": "READ", "obj": name, "method": m, "kwargs": kw}
+
+
 # ----------------------------------------------------------------------------- params
 
 
@@ -203,14 +215,21 @@ def gen_c01(rng, idx, tier, faults):
                 if cur is None:
                     from .refmodels import resolve_n_to_select
 
-                    cur = resolve_n_to_select(newp["n_to_select"], n_from)
+                    v = newp["n_to_select"]
+                    if isinstance(v, dict):
+                        v = v.get("$npint", v.get("$npfloat"))
+                    cur = resolve_n_to_select(v, n_from)
                 continue
             if cur >= n_from:
                 break
             new = rng.randint(cur + 1, n_from)
+            if rng.random() < 0.3:
+                seq.append(gen_read(rng, name, cls))
             seq.append({"op": "SET", "obj": name, "params": {"n_to_select": n_form(rng, new, n_from)}})
             seq.append({"op": "FIT", "obj": name, "X": curX, "y": curY, "warm": True, "env": mk_env()})
             cur = new
+        if rng.random() < 0.3:
+            seq.append(gen_read(rng, name, cls))
         plans.append(seq)
     # interleave the objects' sequences, keeping each object's order
     while any(plans):
@@ -267,6 +286,12 @@ def gen_c06(rng, idx, tier, faults):
     forms = [p["n_to_select"]] + [n_form(rng, n, n_from) for n in sched[1:]]
     refit_init = rng.randrange(n_from) if (refit and rng.random() < 0.6) else None
     refit_X = rng.choice(["X0", "X1"]) if refit_init is not None else "X1"
+    read_after = rng.randrange(len(sched)) if rng.random() < 0.3 else None
+    read_m = rng.choice([("get_support", {}), ("get_support", {"indices": True}), ("get_distance", {}), ("get_select_distance", {}), ("score", {})])
+    # buffer reuse: a single object fits X0, the caller overwrites X0 in place, cold refit on X0
+    reuse = refit and len(lanes) <= 2 and rng.random() < 0.35 and xs.get("storage", "C") not in ("readonly", "memmap")
+    if reuse:
+        lanes = lanes[:1]
     for li, clk in enumerate(lanes):
         name = f"e{li}"
         ops.append({"op": "NEW", "obj": name, "cls": "sample.VoronoiFPS", "params": dict(p), "lane": 0})
@@ -276,13 +301,22 @@ def gen_c06(rng, idx, tier, faults):
                 if restart_at == si:
                     ops.append({"op": "RESTART", "obj": name})
             ops.append({"op": "FIT", "obj": name, "X": "X0", "y": yn, "warm": si > 0, "env": {"clock": clk}})
+            if read_after == si:
+                ops.append({"op": "READ", "obj": name, "method": read_m[0], "kwargs": read_m[1]})
+        if refit and reuse:
+            rec = {k: v for k, v in xs.items() if k not in ("storage",)}
+            rec["seed"] = _seed(rng)
+            ops.append({"op": "MUTATE", "h": "X0", "recipe": rec})
+            refit_X_eff = "X0"
+        else:
+            refit_X_eff = refit_X
         if refit:
             # cold refit of the same object: other data of equal size and/or another start
             if refit_init is not None:
                 ops.append({"op": "SET", "obj": name, "params": {"initialize": refit_init, "n_to_select": forms[0]}})
             else:
                 ops.append({"op": "SET", "obj": name, "params": {"n_to_select": forms[0]}})
-            ops.append({"op": "FIT", "obj": name, "X": refit_X, "y": None if refit_X == "X1" else yn, "warm": False, "env": {"clock": clk}})
+            ops.append({"op": "FIT", "obj": name, "X": refit_X_eff, "y": None if refit_X_eff == "X1" else yn, "warm": False, "env": {"clock": clk}})
     return {"heap": heap, "ops": ops}
 
 
@@ -378,6 +412,8 @@ def gen_c08(rng, idx, tier, faults):
                 elif r < 0.42 and "score_threshold" not in q:
                     seq.append({"op": "SET", "obj": name, "params": {"score_threshold": None}})
             seq.append({"op": "FIT", "obj": name, "X": xn, "y": yn, "warm": si > 0, "env": mk_env()})
+            if rng.random() < 0.3:
+                seq.append(gen_read(rng, name, cls))
         if fam == "fps" and rng.random() < 0.35:
             # FPS initialised with the already selected prefix
             name2 = f"p{o}"
